@@ -40,6 +40,7 @@ RUNS = [
     ("sm2", "TestVgC08SM2Wrappers", "quick"),
     ("internal", "TestVgC08InternalBaseMore", "thorough"),
     ("internal", "TestVgC08InternalVarMore", "thorough"),
+    ("sm2", "TestVgC08SM2More", "thorough"),
 ]
 
 EUCLID = re.compile(r"math/big\.\(\*Int\)\.(ModInverse|GCD|lehmerGCD|ModSqrt|Exp|exp|modSqrt\w*)|math/big\.(lehmer\w*|euclid\w*|Jacobi)|math/big\.nat\.(expNN\w*|modInverse|divLarge|divBasic)|math/big\.\(\*Int\)\.(Div|Quo|Rem|QuoRem|DivMod)$")
